@@ -173,6 +173,7 @@ def shapeOf (m : M) : String :=
     dispatched while a fake (function pointer) frame is on top. -/
 def tick (m : M) : Bool × M :=
   match m.cs with
+  | [] => (false, m)             -- no frame: C code of the driver is running, not LPC
   | ⟨.fake, _⟩ :: _ => (false, m)
   | _ =>
     if m.fault == 1 then (true, { m with fault := 0, shape := some (shapeOf m) })
@@ -216,28 +217,29 @@ def handlerRegs (m : M) : Saved :=
   { m.r with prog := 1000 + masterVal, callerType := Gen.C05.originDriver, prevOb := m.r.co, co := masterVal,
              fp := m.vs.length, pc := 7, fio := 0, vio := 0 }
 
+/-- one instruction of the mudlib error handler: it can be the injected fault (second-level error) -/
+def tickOr (m : M) (k : M → Res) : Res :=
+  if (tick m).1 then raiseInner injectedMsg (tick m).2 else k (tick m).2
+
 /-- mudlib_error_handler: push the mapping (and the flag), apply master::error_handler — a few instructions,
     each of which can be the injected fault; returns normally with everything popped again -/
-def runHandler (msg : String) (caught : Bool) (m0 : M) : Res :=
-  let nargs := if caught then 2 else 1
+def runHandlerN (nargs : Nat) (msg : String) (caught : Bool) (m0 : M) : Res :=
   let m1 := pushVals nargs m0
   if m1.cs.length ≥ m1.maxDepth then
     raiseInner "***Too deep recursion." { m1 with errState := m1.errState ||| Gen.C05.esStackFull }
   else
-  let m2 := { pushFrame .function m1 with r := handlerRegs m1 }
-  let (f1, m3) := tick m2
-  if f1 then raiseInner injectedMsg m3 else
-  let (f2, m4) := tick m3
-  if f2 then raiseInner injectedMsg m4 else
-  let m5 := { m4 with out := Ev.handler caught msg :: m4.out }
-  let (f3, m6) := tick m5
-  if f3 then raiseInner injectedMsg m6 else
+  tickOr { pushFrame .function m1 with r := handlerRegs m1 } fun m3 =>
+  tickOr m3 fun m4 =>
+  tickOr { m4 with out := Ev.handler caught msg :: m4.out } fun m6 =>
   -- F_RETURN: pop locals, push result; pop_control_stack; apply_master_ob takes the result off
   match popN nargs m6 with
   | none => .crash "value stack underflow" m6
   | some m7 => match popFrame m7 with
     | none => .crash "pop_control_stack on empty control stack" m7
     | some m8 => .ok m8
+
+def runHandler (msg : String) (caught : Bool) (m0 : M) : Res :=
+  runHandlerN (if caught then 2 else 1) msg caught m0
 
 /-- error_handler (error_context.c), first level -/
 def raise (msg : String) (m0 : M) : Res :=
@@ -371,9 +373,7 @@ def setRegister (r : Reg) (v : Val) (m : M) : M :=
 /-- the instruction that ends a body (F_RETURN / F_END_CATCH): it can be the injected fault -/
 def thenTick (r : Res) : Res :=
   match r with
-  | .ok m =>
-    let (f, m') := tick m
-    if f then raise injectedMsg m' else .ok m'
+  | .ok m => if (tick m).1 then raise injectedMsg (tick m).2 else .ok (tick m).2
   | r => r
 
 /-- after the callee's body: return, pop frames, the caller consumes the result -/
@@ -389,19 +389,21 @@ def callFinish (k : CallKind) (declared : Nat) (r : Res) : Res :=
 
 def limitBits : Nat := Gen.C05.esMaxEvalCost ||| Gen.C05.esStackFull
 
+/-- the catch value is on the stack; pop_context; the LPC code takes the value off the stack into its variable -/
+def afterCatch (link : List Ctx) (mm : M) : Res :=
+  match mm.vs with
+  | [] => .crash "value stack underflow" mm
+  | _ :: t => .ok { popContext link mm with vs := t }
+
 /-- do_catch after the body: F_END_CATCH path (`ok`) or longjmp path (`err`); finally pop_context and the LPC
     code takes the value off the stack into its variable -/
 def catchFinish (econ : Ctx) (link : List Ctx) (r : Res) : Res :=
-  let afterCatch (mm : M) : Res :=
-    match mm.vs with
-    | [] => .crash "value stack underflow" mm
-    | _ :: t => .ok { popContext link mm with vs := t }
   match r with
   | .ok m4 =>
     -- F_END_CATCH: free catch_value, catch_value = const0, pop_control_stack, push_number(0)
     match popFrame { m4 with catchValue := .num 0 } with
     | none => .crash "pop_control_stack on empty control stack" m4
-    | some m5 => afterCatch { pushVals 1 m5 with lastCatch := .num 0 }
+    | some m5 => afterCatch link { pushVals 1 m5 with lastCatch := .num 0 }
   | .err m5 =>
     match restoreContext econ m5 with
     | .ok m6 =>
@@ -410,7 +412,7 @@ def catchFinish (econ : Ctx) (link : List Ctx) (r : Res) : Res :=
       if m7.errState &&& limitBits != 0 then
         -- pop_context; error("*Can't catch ...")
         raise "*Can't catch eval cost too big error." (popContext link m7)
-      else afterCatch m7
+      else afterCatch link m7
     | r => r
   | r => r
 
@@ -438,8 +440,47 @@ def depthCheck (k : CallKind) (m : M) : Option M :=
            r := { m.r with callerType := Gen.C05.originFunctionPointer, prog := 999, prevOb := m.r.co, pc := 1 } }
   else none
 
+/-! finishers: what the C code does after the body of a construct has ended, normally or by longjmp -/
+
+/-- expression temporaries / efun arguments held across the body are popped when it completes -/
+def tmpFinish (n : Nat) (r : Res) : Res :=
+  match r with
+  | .ok m1 => match popN n m1 with
+    | some m2 => .ok m2
+    | none => .crash "value stack underflow" m1
+  | r => r
+
+/-- normal exit of an efun that pushed a T_ERROR_HANDLER slot: `sp--`, the handler does not run -/
+def handlerFinish (r : Res) : Res :=
+  match r with
+  | .ok m1 => match dropTop m1 with
+    | some m2 => .ok m2
+    | none => .crash "value stack underflow" m1
+  | r => r
+
+/-- C code that saved command_giver puts it back on the normal path only -/
+def withCgFinish (cg : Val) (r : Res) : Res :=
+  match r with
+  | .ok m1 => .ok { m1 with cg := cg }
+  | r => r
+
+/-- load_object: `num_objects_this_thread--` on the normal path only -/
+def loadFinish (r : Res) : Res :=
+  match r with
+  | .ok m1 => .ok { m1 with loadDepth := m1.loadDepth - 1 }
+  | r => r
+
+/-- destruct_object: `restrict_destruct = save_restrict_destruct` on the normal path only -/
+def dhookFinish (v : Val) (r : Res) : Res :=
+  match r with
+  | .ok m1 => .ok { m1 with restrictDestruct := v }
+  | r => r
+
+/-- the context safe_apply works with: saved with the arguments on the stack, then (fix) `save_sp = sp - num_arg` -/
+def safeCtx (nargs : Nat) (econ0 : Ctx) : Ctx := { econ0 with saveSp := econ0.saveSp - nargs }
+
 mutual
-/-- execute a program; every op begins with one dispatched instruction (`tick`) -/
+/-- execute a program -/
 def exec : Prog → M → Res
   | .nil, m => .ok m
   | .cons o p, m =>
@@ -447,77 +488,54 @@ def exec : Prog → M → Res
     | .ok m' => exec p m'
     | r => r
 
+/-- every op begins with one dispatched instruction (`tick`), which can be the injected fault -/
 def execOp : Op → M → Res
-  | o, m0 =>
-    let (fired, m) := tick m0
-    if fired then raise injectedMsg m else
-    match o with
-    | .say s => .ok { m with out := Ev.say s :: m.out }
-    | .tmp n body =>
-      match exec body (pushVals n m) with
-      | .ok m1 => match popN n m1 with
-        | some m2 => .ok m2
-        | none => .crash "value stack underflow" m1
-      | r => r
-    | .handler id body =>
-      match exec body { m with vs := Slot.handler id :: m.vs } with
-      | .ok m1 => match dropTop m1 with
-        | some m2 => .ok m2
-        | none => .crash "value stack underflow" m1
-      | r => r
-    | .setReg r v => .ok (setRegister r v m)
-    | .withCg v body =>
-      match exec body { m with cg := v } with
-      | .ok m1 => .ok { m1 with cg := m.cg }
-      | r => r
-    | .install site fails =>
-      if fails then
-        if site.beforeLastError then raise site.failMsg { m with installed := site.name :: m.installed }
-        else raise site.failMsg m
-      else .ok { m with installed := site.name :: m.installed }
-    | .call k nargs declared body =>
-      let m1 := pushVals nargs m
-      match depthCheck k m1 with
-      | some mFull =>
-        raise "***Too deep recursion." { mFull with errState := mFull.errState ||| Gen.C05.esStackFull }
-      | none =>
-      match adjustArgs nargs declared (enterCall k declared m1) with
-      | none => .crash "value stack underflow" m1
-      | some m2 =>
-        callFinish k declared (if hasReturnTick k then thenTick (exec body m2) else exec body m2)
-    | .catch_ body =>
-      -- do_catch (frame.c)
-      match saveContext m with
-      | none => raise "*Can't catch too deep recursion error." m
-      | some (econ, m1) =>
-        catchFinish econ m.ctxs (thenTick (exec body { pushFrame .catch_ m1 with catchValue := .num 1 }))
-    | .sayCatch => .ok { m with out := Ev.catchLog m.lastCatch :: m.out }
-    | .safeApply nargs declared body =>
-      -- safe_apply (apply.c) of a master function; the arguments are pushed by the caller first
-      let m1 := pushVals nargs m
-      match saveContext m1 with
-      | none => match popN nargs m1 with
-        | some m2 => .ok m2
-        | none => .crash "value stack underflow" m1
-      | some (econ0, m2) =>
-        -- fix: econ.save_sp = sp - num_arg
-        let econ : Ctx := { econ0 with saveSp := econ0.saveSp - nargs }
-        -- apply_low: the context was saved just above, so the depth test of push_control_stack passes
-        match adjustArgs nargs declared (enterCall (.other masterVal) declared m2) with
-        | none => .crash "value stack underflow" m2
-        | some m3 => safeFinish econ m1.ctxs declared (thenTick (exec body m3))
-    | .raise msg => raise msg m
-    | .throw_ v => throwVal v m
-    | .raiseLimit =>
-      raise "*Too long evaluation. Execution aborted." { m with errState := m.errState ||| Gen.C05.esMaxEvalCost }
-    | .load body =>
-      match exec body { m with loadDepth := m.loadDepth + 1 } with
-      | .ok m1 => .ok { m1 with loadDepth := m1.loadDepth - 1 }
-      | r => r
-    | .dhook v body =>
-      match exec body { m with restrictDestruct := v } with
-      | .ok m1 => .ok { m1 with restrictDestruct := m.restrictDestruct }
-      | r => r
+  | o, m0 => if (tick m0).1 then raise injectedMsg (tick m0).2 else execCore o (tick m0).2
+
+def execCore : Op → M → Res
+  | .say s, m => .ok { m with out := Ev.say s :: m.out }
+  | .tmp n body, m => tmpFinish n (exec body (pushVals n m))
+  | .handler id body, m => handlerFinish (exec body { m with vs := Slot.handler id :: m.vs })
+  | .setReg r v, m => .ok (setRegister r v m)
+  | .withCg v body, m => withCgFinish m.cg (exec body { m with cg := v })
+  | .install site fails, m =>
+    if fails then
+      if site.beforeLastError then raise site.failMsg { m with installed := site.name :: m.installed }
+      else raise site.failMsg m
+    else .ok { m with installed := site.name :: m.installed }
+  | .call k nargs declared body, m =>
+    match depthCheck k (pushVals nargs m) with
+    | some mFull =>
+      raise "***Too deep recursion." { mFull with errState := mFull.errState ||| Gen.C05.esStackFull }
+    | none =>
+    match adjustArgs nargs declared (enterCall k declared (pushVals nargs m)) with
+    | none => .crash "value stack underflow" (pushVals nargs m)
+    | some m2 =>
+      callFinish k declared (if hasReturnTick k then thenTick (exec body m2) else exec body m2)
+  | .catch_ body, m =>
+    -- do_catch (frame.c)
+    match saveContext m with
+    | none => raise "*Can't catch too deep recursion error." m
+    | some (econ, m1) =>
+      catchFinish econ m.ctxs (thenTick (exec body { pushFrame .catch_ m1 with catchValue := .num 1 }))
+  | .sayCatch, m => .ok { m with out := Ev.catchLog m.lastCatch :: m.out }
+  | .safeApply nargs declared body, m =>
+    -- safe_apply (apply.c) of a master function; the arguments are pushed by the caller first
+    match saveContext (pushVals nargs m) with
+    | none => match popN nargs (pushVals nargs m) with
+      | some m2 => .ok m2
+      | none => .crash "value stack underflow" (pushVals nargs m)
+    | some (econ0, m2) =>
+      -- apply_low: the context was saved just above, so the depth test of push_control_stack passes
+      match adjustArgs nargs declared (enterCall (.other masterVal) declared m2) with
+      | none => .crash "value stack underflow" m2
+      | some m3 => safeFinish (safeCtx nargs econ0) m.ctxs declared (thenTick (exec body m3))
+  | .raise msg, m => raise msg m
+  | .throw_ v, m => throwVal v m
+  | .raiseLimit, m =>
+    raise "*Too long evaluation. Execution aborted." { m with errState := m.errState ||| Gen.C05.esMaxEvalCost }
+  | .load body, m => loadFinish (exec body { m with loadDepth := m.loadDepth + 1 })
+  | .dhook v body, m => dhookFinish m.restrictDestruct (exec body { m with restrictDestruct := v })
 end
 
 /-! ### the driver-level evaluation (what backend()/call_out()/the harness do around an apply) -/
@@ -555,6 +573,20 @@ def runTop (ob : Val) (pre : List (Reg × Val)) (p : Prog) (k : Nat) (m0 : M) : 
     let wasErr := match r with | .err _ => true | _ => false
     match topFinish econ m0.ctxs r with
     | .ok m5 => { before := m0, after := { m5 with fault := 0 }, result := if wasErr then "fault-top" else "done 1" }
+    | .err m5 => { before := m0, after := m5, result := "crash longjmp" }
+    | .crash why m5 => { before := m0, after := m5, result := "crash " ++ why }
+
+/-- a driver-level evaluation that is C code calling back into LPC itself (the real `call_out()` run by the backend):
+    save_context; the ops (which contain their own recovery points); recovery; pop_context -/
+def runDriver (p : Prog) (k : Nat) (m0 : M) : TopResult :=
+  let m0 := { m0 with out := [], shape := none, fault := 0 }
+  match saveContext m0 with
+  | none => { before := m0, after := m0, result := "too-deep" }
+  | some (econ, m1) =>
+    let r := exec p { m1 with fault := k }
+    let wasErr := match r with | .err _ => true | _ => false
+    match topFinish econ m0.ctxs r with
+    | .ok m5 => { before := m0, after := { m5 with fault := 0 }, result := if wasErr then "fault-top" else "done co" }
     | .err m5 => { before := m0, after := m5, result := "crash longjmp" }
     | .crash why m5 => { before := m0, after := m5, result := "crash " ++ why }
 
